@@ -79,17 +79,24 @@ func init() {
 					return worlds[k], nil
 				}
 				curPw := map[key]int{}
+				reloadBroken := false
 				sentinel := 0
 				// the htpasswd file of both proxies rewritten (rename into place) with the bcrypt entry of password version ver;
 				// a fresh sentinel user tells when the reload has completed
 				writeHt := func(pair [2]*vpWorld, ver int) bool {
 					sentinel++
-					sn := fmt.Sprintf("sentinel%d", sentinel)
+					sn := fmt.Sprintf("sentinel%06d", sentinel) // fixed width: every version of the file has the same size
 					h, _ := bcrypt.GenerateFromPassword([]byte(fmt.Sprintf("hp-pass-%d", ver)), bcrypt.MinCost)
 					content := "hp:" + string(h) + "\n" + vpHtpasswdLine(sn, "s") + "\n"
 					for _, w := range pair {
 						tmp := w.htpasswdPath + ".tmp"
-						if os.WriteFile(tmp, []byte(content), 0o600) != nil || os.Rename(tmp, w.htpasswdPath) != nil {
+						if os.WriteFile(tmp, []byte(content), 0o600) != nil {
+							return false
+						}
+						// ... and the same modification time (a deploy tool that preserves time stamps, two saves within one tick of a
+						// coarse clock): what the file says is what counts, not what its metadata suggests
+						os.Chtimes(tmp, vpPinnedTime, vpPinnedTime)
+						if os.Rename(tmp, w.htpasswdPath) != nil {
 							return false
 						}
 					}
@@ -117,12 +124,20 @@ func init() {
 						env.emit(vpOut{ID: c.ID, Err: "world: " + err.Error()})
 						continue
 					}
-					if curPw[k] != 1 {
+					if curPw[k] == 0 {
 						if !writeHt(pair, 1) {
-							env.emit(vpOut{ID: c.ID, Err: "htpasswd reload not observed"})
+							env.emit(vpOut{ID: c.ID, Err: "htpasswd: the first version could not be put in force"})
 							continue
 						}
 						curPw[k] = 1
+					}
+					// the model's password versions 1 / 2 are mapped onto what the file holds now (no rewrite outside the model's steps)
+					base := curPw[k]
+					actual := func(v int) int {
+						if base == 1 {
+							return v
+						}
+						return 3 - v
 					}
 					if pair[0].mr != nil {
 						pair[0].mr.FlushAll() // every behaviour starts from an empty store
@@ -268,7 +283,7 @@ func init() {
 							cur = 1 - cur
 							obs["reloaded"] = true
 						case "basic":
-							cred := "Basic " + base64.StdEncoding.EncodeToString([]byte(fmt.Sprintf("hp:hp-pass-%d", vpI(st.Args, "v"))))
+							cred := "Basic " + base64.StdEncoding.EncodeToString([]byte(fmt.Sprintf("hp:hp-pass-%d", actual(vpI(st.Args, "v")))))
 							r := w.do(vpReq{Target: "/private", Header: [][2]string{{"Authorization", cred}}})
 							obs["served"] = r.UpHits > 0
 							obs["status"] = r.Status
@@ -277,8 +292,15 @@ func init() {
 								obs["user"] = map[string]string{"hp": "hp"}[r.UpLast.Header.Get("X-Forwarded-User")]
 							}
 						case "pwchange":
-							obs["reloaded"] = writeHt(pair, vpI(st.Args, "to"))
-							curPw[k] = vpI(st.Args, "to")
+							if reloadBroken {
+								obs["reloaded"] = false // (already seen not to happen: no point in waiting again)
+							} else {
+								obs["reloaded"] = writeHt(pair, actual(vpI(st.Args, "to")))
+								if obs["reloaded"] == false {
+									reloadBroken = true
+								}
+							}
+							curPw[k] = actual(vpI(st.Args, "to"))
 						case "groups":
 							u := vpS(st.Args, "user")
 							usr := pair[0].idp.user(u)
@@ -332,3 +354,5 @@ func init() {
 		wg.Wait()
 	})
 }
+
+var vpPinnedTime = time.Date(2024, 1, 2, 3, 4, 5, 0, time.UTC)
